@@ -242,7 +242,18 @@ func (rp *report) judge(cr caseRef, r *replayResult) {
 		fail("no native result")
 		return
 	}
-	if len(r.TapeMisses) > 0 {
+	isViol := cr.kind == "violation" || cr.kind == "known"
+	reproduced := false
+	if isViol {
+		if strings.HasPrefix(c.Assertion, "PANIC") {
+			reproduced = r.Panic != ""
+		} else {
+			reproduced = contains(r.Failed, c.Assertion)
+		}
+	}
+	// the engine ends a path at a failed assertion; natively the harness runs on and may ask for
+	// inputs the engine never created: such misses are irrelevant once the failure reproduced
+	if len(r.TapeMisses) > 0 && !reproduced {
 		fail("native run asked for inputs not on the tape (path divergence): " + strings.Join(r.TapeMisses, ","))
 		return
 	}
